@@ -37,13 +37,13 @@ RST = 'valjean.javert.rst'
 
 
 def check(ctx):
-    reportfs.check_validate_first(ctx)
-    reportfs.check_reserved(ctx)
-    reportfs.check_dup_key(ctx)
-    reportfs.check_page_flow(ctx)
-    reportfs.check_fig_name(ctx)
-    extcmd.check_sanitize(ctx, scope=('report-root',), floor=1)
-    extcmd.check_sanitizer_body(ctx)
+    ctx.run(reportfs.check_validate_first)
+    ctx.run(reportfs.check_reserved)
+    ctx.run(reportfs.check_dup_key)
+    ctx.run(reportfs.check_page_flow)
+    ctx.run(reportfs.check_fig_name)
+    ctx.run(extcmd.check_sanitize, scope=('report-root',), floor=1)
+    ctx.run(extcmd.check_sanitizer_body)
 
 
 def variants(program):
